@@ -330,6 +330,13 @@ def scenarios(tier):
                                    sequences=seqs)
                 jobs.append((scn, 0 if quick else 1,
                              40 if quick else 1200, 1))
+    # the database refuses the first commit of every stop command as a
+    # deadlock victim: the engine retries the transaction, and whatever the
+    # first attempt had queued for after its commit must not happen
+    for scn, bound, secs, na in list(jobs):
+        if not scn.rp:
+            jobs.append((common.variant(scn, '/dbretry', cmd_db_fault=True),
+                         0, secs, na))
     # every policy program of C08 stopped at every point: wake-ups of
     # delayed tasks, wait-after completions, timeout timers and remaining
     # with-items iterations are late events too
@@ -347,7 +354,7 @@ def scenarios(tier):
 def main(tier):
     rep = common.Report(PROP, tier)
     jobs = common.rotate(scenarios(tier))
-    deadline = time.time() + (170 if tier == 'quick' else 1500)
+    deadline = time.time() + (270 if tier == 'quick' else 1500)
     res = common.parallel_map(common.explore_job, jobs, deadline=deadline)
     rep.add_explore_results(jobs, res)
     rep.assumptions = [
